@@ -70,10 +70,13 @@ package adder
 // putting a list of blocks: assumed here (it is a loop of Add); addManyN / addManyOK: calls made / calls that returned nil
 //@ ghost var addManyN int
 //@ ghost var addManyOK int
+// lastPutList: the list of nodes handed to the last AddMany call (call history)
+//@ ghost var lastPutList []ipld.Node
 //@ func (ba *BlockAdder) AddMany
 //@   opts trusted
 //@   counts addManyN when true
 //@   counts addManyOK when err == nil
+//@   records lastPutList = nodes
 //@   modifies rpcN, rpcLastSvc, rpcLastMethod, rpcLastArg
 
 // ---- C13 "delivers ... a set of blocks that is closed under links from the returned root": adding a CAR hands every
